@@ -6,6 +6,7 @@ package main
 // crafted coin values.  One step record per message: abstract pre-state, op, ok/failed, post-state.
 
 import (
+	"encoding/json"
 	"fmt"
 	"math/rand"
 	"sort"
@@ -463,7 +464,7 @@ func runRns(seed int64, histories, steps int, out *Emitter) {
 					break
 				}
 				post := c.rnsAbs(g.tracked)
-				out.Emit(map[string]interface{}{"mod": "rns", "hist": hi, "i": i, "h": c.H, "pre": pre, "op": "restart", "ok": true, "post": post})
+				out.Emit(map[string]interface{}{"mod": "rns", "hist": hi, "i": i, "h": c.H, "pre": pre, "op": "restart", "ok": true, "post": post, "genesis": c.rnsGenesisJ()})
 				out.Count("rns.restart", true)
 			}
 			if r.Intn(6) == 0 {
@@ -546,4 +547,41 @@ func respell(g *rnsGen, msg sdk.Msg, op map[string]interface{}) {
 		}
 		extraAddrs = append(extraAddrs, nc)
 	}
+}
+
+// rnsGenesisJ decodes the rns part of the last exported application state, list by list in the exported order
+// (what the Lean model's `Genesis.Rns.exportGenesis` must compute from the state before the restart).
+func (c *Chain) rnsGenesisJ() interface{} {
+	var app map[string]json.RawMessage
+	if json.Unmarshal(c.LastExport, &app) != nil {
+		return nil
+	}
+	var gs rnstypes.GenesisState
+	if err := c.A.AppCodec().UnmarshalJSON(app[rnstypes.ModuleName], &gs); err != nil {
+		return map[string]interface{}{"error": err.Error()}
+	}
+	whois, names, bids, sale, inits, prim := []interface{}{}, []interface{}{}, []interface{}{}, []interface{}{}, []interface{}{}, []interface{}{}
+	for _, w := range gs.WhoIsList {
+		whois = append(whois, map[string]interface{}{"index": w.Index, "name": w.Name, "value": w.Value, "data": w.Data})
+	}
+	for _, n := range gs.NamesList {
+		subs := []rnsSub{}
+		for _, s := range n.Subdomains {
+			subs = append(subs, rnsSub{s.Name, s.Value, s.Data, s.Tld, s.Expires})
+		}
+		names = append(names, rnsName{n.Name, n.Tld, n.Expires, n.Value, n.Data, n.Locked, subs})
+	}
+	for _, b := range gs.BidsList {
+		bids = append(bids, rnsBid{b.Index, b.Name, b.Bidder, b.Price, parseCoinsJ(b.Price)})
+	}
+	for _, f := range gs.ForSaleList {
+		sale = append(sale, rnsListing{f.Name, f.Owner, f.Price, parseCoinJ(f.Price)})
+	}
+	for _, i := range gs.InitList {
+		inits = append(inits, map[string]interface{}{"address": i.Address, "complete": i.Complete})
+	}
+	for _, p := range gs.PrimaryNameList {
+		prim = append(prim, map[string]interface{}{"owner": p.Owner, "name": p.Name})
+	}
+	return map[string]interface{}{"whoIsList": whois, "namesList": names, "bidsList": bids, "forSaleList": sale, "initList": inits, "primaryNameList": prim}
 }
